@@ -24,11 +24,22 @@ def sh(cmd, cwd=None, timeout=None):
 def worktree(k):
     wt = f'{ROOT}/w{k}'
     if not os.path.isdir(wt):
-        sh(['git', '-C', '/repo', 'worktree', 'add', '--detach', wt, 'HEAD'])
+        sh(['git', '-C', '/repo', 'worktree', 'add', '--detach', wt, base_commit()])
         os.makedirs(f'{wt}/.verif', exist_ok=True)
-    subprocess.run(['cp', '/verif/known_findings.json', f'{wt}/.verif/'])
+    kf = json.load(open('/verif/known_findings.json'))
+    # the sweep base predates fix 8f5b934 (F13): suppress that (then still open) finding so that it does not mask survivors
+    if base_commit().startswith('c762059'):
+        for prop in ('C06', 'C04'):
+            kf['findings'].append({'property': prop, 'key': prop + '.R4:drain-observed-under-the-lock:(*connection).onProcess$1:closeCallback(false,false)', 'status': 'open', 'what': 'F13 (open at the sweep base commit)'})
+    json.dump(kf, open(f'{wt}/.verif/known_findings.json', 'w'))
     sh(['git', 'checkout', '-q', '--', '.'], cwd=wt)
     return wt
+
+def base_commit():
+    p = f'{ROOT}/base_commit'
+    if os.path.exists(p):
+        return open(p).read().strip()
+    return 'HEAD'
 
 def apply(wt, m, orig):
     src = orig[m['file']]
@@ -81,6 +92,7 @@ def main():
     if cmd == 'gen':
         out = subprocess.run(['/verif/bin/mutgen', '/repo'], stdout=subprocess.PIPE, text=True).stdout
         open(f'{ROOT}/muts.jsonl', 'w').write(out)
+        open(f'{ROOT}/base_commit', 'w').write(subprocess.run(['git', '-C', '/repo', 'rev-parse', 'HEAD'], stdout=subprocess.PIPE, text=True).stdout.strip())
         print('generated', out.count('\n'))
         return
     if cmd == 'clean':
@@ -90,10 +102,12 @@ def main():
         return
     muts = load_muts()
     files = sorted(set(m['file'] for m in muts))
-    orig = {f: open(f'/repo/{f}', 'rb').read() for f in files}
+    orig = {f: subprocess.run(['git', '-C', '/repo', 'show', f'{base_commit()}:{f}'], stdout=subprocess.PIPE).stdout for f in files}
     if cmd == 'check':
         done = load_results('check')
         todo = [m for m in muts if m['id'] not in done]
+        if '--redo-survivors' in sys.argv:
+            todo = [m for m in muts if done.get(m['id'], {}).get('status') in ('survived', 'broken')]
         if '--only' in sys.argv:
             ops = sys.argv[sys.argv.index('--only') + 1].split(',')
             todo = [m for m in todo if m['op'] in ops]
